@@ -1372,6 +1372,64 @@ func (r *runner) expungeCommand(rng *rand.Rand) {
 	}
 }
 
+// ---- the effects of a command are visible as soon as its Wait returns --------------
+
+func (r *runner) stateAtCompletion(rng *rand.Rand) {
+	log := &vconn.Log{}
+	cEnd, sEnd := vconn.Pipe("client", "server", log)
+	defer cEnd.Close()
+	defer sEnd.Close()
+	c := imapclient.New(cEnd, nil)
+	p := &peer{conn: sEnd, br: bufio.NewReader(sEnd)}
+	sEnd.Write([]byte("* OK [CAPABILITY " + capLine + "] ready\r\n"))
+	step := func(name string, cmd func() error, resp func(tag string) string, want imap.ConnState, wantMailbox bool) bool {
+		errc := make(chan error, 1)
+		go func() { errc <- cmd() }()
+		rc, err := p.readCmd()
+		if err != nil {
+			return false
+		}
+		r.hist = append(r.hist, "C: "+strings.TrimSpace(firstLine(rc.line)))
+		out := resp(rc.tag)
+		r.hist = append(r.hist, "S: "+strings.TrimSpace(out))
+		sEnd.Write([]byte(out))
+		select {
+		case err := <-errc:
+			if err != nil {
+				r.fail("wrong-status", name+": "+err.Error(), nil)
+				return false
+			}
+		case <-time.After(30 * time.Second):
+			r.fail("command-not-completed@"+name, name+" did not complete", nil)
+			return false
+		}
+		// no barrier here on purpose: Wait has returned, the state must already reflect the command
+		st, mb := c.State(), c.Mailbox()
+		if st != want || (mb != nil) != wantMailbox {
+			r.fail("mirror-state-lags-completion@"+name, fmt.Sprintf("%s: Wait returned but the client still reports state=%v mailbox=%s (expected state=%v)", name, st, describeMailbox(mb), want), nil)
+			return false
+		}
+		return true
+	}
+	for i := 0; i < 20; i++ {
+		if !step("LOGIN", func() error { return c.Login("u", "p").Wait() }, func(t string) string { return t + " OK [CAPABILITY " + capLine + "] in\r\n" }, imap.ConnStateAuthenticated, false) {
+			return
+		}
+		if !step("SELECT", func() error { _, err := c.Select("INBOX", nil).Wait(); return err }, func(t string) string {
+			return "* 2 EXISTS\r\n* FLAGS (\\Seen)\r\n" + t + " OK [READ-WRITE] selected\r\n"
+		}, imap.ConnStateSelected, true) {
+			return
+		}
+		if !step("UNSELECT", func() error { return c.Unselect().Wait() }, func(t string) string { return t + " OK\r\n" }, imap.ConnStateAuthenticated, false) {
+			return
+		}
+		if !step("UNAUTHENTICATE", func() error { return c.Unauthenticate().Wait() }, func(t string) string { return t + " OK [CAPABILITY " + capLine + "] out\r\n" }, imap.ConnStateNotAuthenticated, false) {
+			return
+		}
+	}
+	step("LOGOUT", func() error { return c.Logout().Wait() }, func(t string) string { return "* BYE\r\n" + t + " OK\r\n" }, imap.ConnStateLogout, false)
+}
+
 func body(w *hx.W) {
 	rng := w.Rand("c12")
 	n := w.Pick(5000, 100000)
@@ -1381,6 +1439,9 @@ func body(w *hx.W) {
 		case i%10 < 4:
 			r.class = "pipelined"
 			r.pipelined(rng)
+		case i%50 == 9:
+			r.class = "state-at-completion"
+			r.stateAtCompletion(rng)
 		case i%10 == 4:
 			r.class = "same-type-in-order"
 			r.sameTypeInOrder(rng)
@@ -1410,7 +1471,7 @@ func main() {
 	hx.Main(hx.Spec{
 		ID:    "C12",
 		Level: "exploration",
-		Rule:  "scripts for a conformant scripted server: (a) 2..6 pipelined commands that are unambiguous per RFC 9051 §5.5 (STATUS x2 on distinct mailboxes, LIST, NAMESPACE, NOOP, CREATE, APPEND, one of FETCH / UID FETCH / STORE, SEARCH or UID SEARCH/ESEARCH, COPY) with a random outcome each (OK with or without text / NO / BAD, with and without response codes), answered in a random interleaving that keeps each command's own order, with unilateral EXISTS / EXPUNGE / FLAGS / PERMANENTFLAGS in between; (b) state sequences of SELECT (OK / NO / BAD, with and without [CLOSED]), UNSELECT / CLOSE, STATUS, unilateral updates, LOGOUT; (c) tagged refusal of a synchronising literal with another command in flight; (d) FETCH with sets containing '*'; (e) 2..4 commands of the same type (SEARCH, LIST, NAMESPACE, STATUS on one mailbox) behind commands that complete first, answered in issue order; (f) EXPUNGE / UID EXPUNGE / MOVE commands whose EXPUNGE data must reach the command and the mirrored count; distinct = distinct transcript",
+		Rule:  "scripts for a conformant scripted server: (a) 2..6 pipelined commands that are unambiguous per RFC 9051 §5.5 (STATUS x2 on distinct mailboxes, LIST, NAMESPACE, NOOP, CREATE, APPEND, one of FETCH / UID FETCH / STORE, SEARCH or UID SEARCH/ESEARCH, COPY) with a random outcome each (OK with or without text / NO / BAD, with and without response codes), answered in a random interleaving that keeps each command's own order, with unilateral EXISTS / EXPUNGE / FLAGS / PERMANENTFLAGS in between; (b) state sequences of SELECT (OK / NO / BAD, with and without [CLOSED]), UNSELECT / CLOSE, STATUS, unilateral updates, LOGOUT; (c) tagged refusal of a synchronising literal with another command in flight; (d) FETCH with sets containing '*'; (e) 2..4 commands of the same type (SEARCH, LIST, NAMESPACE, STATUS on one mailbox) behind commands that complete first, answered in issue order; (g) LOGIN / SELECT / UNSELECT / UNAUTHENTICATE / LOGOUT loops checking State()/Mailbox() immediately after Wait returns, without barrier; (f) EXPUNGE / UID EXPUNGE / MOVE commands whose EXPUNGE data must reach the command and the mirrored count; distinct = distinct transcript",
 		Assumptions: []string{
 			"the client's reader being parked with nothing pending means everything sent so far has been processed; State()/Mailbox() are compared at exactly these points, after every scripted line",
 			"reference interpretation: greeting OK => not authenticated, PREAUTH => authenticated; LOGIN OK => authenticated; [CLOSED] => authenticated and no mailbox; SELECT OK => selected with the EXISTS / FLAGS / PERMANENTFLAGS sent for it; SELECT NO => no mailbox selected; SELECT BAD => unchanged; UNSELECT / CLOSE OK => authenticated; LOGOUT OK => logout; unilateral EXISTS / EXPUNGE / FLAGS / PERMANENTFLAGS update the summary",
